@@ -628,4 +628,92 @@ Section Polyline.
     rewrite <- Rmult_minus_distr_r, Rabs_mult, (Rabs_pos_eq L HL).
     apply Rmult_le_compat_r; [exact HL|apply clamp01_R_lipschitz].
   Qed.
+  (* ---------- the near-zero-segment guard at its real width ----------
+     with the guard |d0 - d1| <= eps for eps > 0 (the code: f64::EPSILON) a
+     position inside a segment not longer than eps is reported as the
+     segment's first vertex: at most eps away from the unguarded position *)
+  Lemma guard_close eps d : 0 <= eps -> 0 <= d <= L ->
+    exists q0 qe, interpolate path lens (search lens d) d = Done q0 /\
+                  interpolate_g (near_R eps) interp2 (0, 0) path lens (search lens d) d = Done qe /\
+                  edist qe q0 <= eps.
+  Proof.
+    intros He Hd. destruct (locate d Hd) as (q0 & Hq & Hloc). exists q0.
+    destruct (search lens d) as [|i1].
+    - destruct Hloc as [_ Hf]. exists q0. split; [exact Hq|]. split; [apply interpolate_g_zero; exact Hf|].
+      rewrite edist_refl. exact He.
+    - destruct (located_lower d i1 q0 Hloc) as (p0' & l0' & E0' & F0' & Hl0' & Dq).
+      cbn [located] in Hloc. destruct Hloc as (p0 & p1 & l0 & l1 & E0 & E1 & F0 & F1 & Hr & Hc).
+      rewrite E0 in E0'. rewrite F0 in F0'. inversion E0'; inversion F0'; subst p0' l0'.
+      rewrite (interpolate_g_between (near_R eps) interp2 (0, 0) path lens i1 d p0 p1 l0 l1 E0 E1 F0 F1).
+      unfold near_R. destruct (Rle_dec (Rabs (l0 - l1)) eps) as [Hn|Hn].
+      + exists p0. split; [exact Hq|]. split; [reflexivity|].
+        rewrite Rabs_left1 in Hn by lra. lra.
+      + exists q0. split; [exact Hq|]. split; [|rewrite edist_refl; exact He].
+        destruct Hc as [[Heq _]|[_ ->]]; [|reflexivity].
+        exfalso. apply Hn. subst l1. rewrite Rminus_diag_eq by reflexivity. rewrite Rabs_R0. exact He.
+  Qed.
+
+  Theorem position_at_lipschitz_guard eps a b : 0 <= eps ->
+    exists qa qb,
+      position_at_g 0 1 Rmult Rltb Rgtb (near_R eps) interp2 (0, 0) search path lens a = Done qa /\
+      position_at_g 0 1 Rmult Rltb Rgtb (near_R eps) interp2 (0, 0) search path lens b = Done qb /\
+      edist qa qb <= Rabs (a - b) * L + 2 * eps.
+  Proof.
+    intros He. pose proof L_ge0 as HL.
+    assert (Hr : forall p, 0 <= clamp01_R p * L <= L).
+    { intros p. pose proof (clamp01_R_range p). split; [apply Rmult_le_pos; lra|].
+      replace L with (1 * L) at 2 by ring. apply Rmult_le_compat_r; lra. }
+    unfold position_at_g. rewrite !progress_dist.
+    destruct (guard_close eps _ He (Hr a)) as (q0a & qa & Q0a & Qa & Ca).
+    destruct (guard_close eps _ He (Hr b)) as (q0b & qb & Q0b & Qb & Cb).
+    exists qa, qb. split; [exact Qa|]. split; [exact Qb|].
+    pose proof (interpolate_lipschitz _ _ q0a q0b (Hr a) (Hr b) Q0a Q0b) as H0.
+    assert (H1 : Rabs (clamp01_R a * L - clamp01_R b * L) <= Rabs (a - b) * L).
+    { rewrite <- Rmult_minus_distr_r, Rabs_mult, (Rabs_pos_eq L HL).
+      apply Rmult_le_compat_r; [exact HL|apply clamp01_R_lipschitz]. }
+    pose proof (edist_triangle qa q0a qb) as T1. pose proof (edist_triangle q0a q0b qb) as T2.
+    rewrite (edist_sym q0b qb) in T2. lra.
+  Qed.
 End Polyline.
+
+(* readable names for the statements *)
+Definition position_R (eps : R) (search : list R -> R -> nat) : list P2 -> list R -> R -> outcome P2 :=
+  position_at_g 0 1 Rmult Rltb Rgtb (near_R eps) interp2 (0, 0) search.
+Definition interpolate_R (eps : R) : list P2 -> list R -> nat -> R -> outcome P2 :=
+  interpolate_g (near_R eps) interp2 (0, 0).
+
+(* ---------- the Section hypothesis discharged: the transcribed search ---------- *)
+
+Theorem std_position_at_zero path first p : path <> [] -> nth_error path 0 = Some first -> p <= 0 ->
+  position_R 0 idx_of_dist_R path (cumlen path) p = Done first.
+Proof. intros Hne Hf Hp. exact (position_at_zero_R path Hne idx_of_dist_R idx_of_dist_R_contract first Hf p Hp). Qed.
+
+Theorem std_position_at_one path p : path <> [] -> 1 <= p ->
+  position_R 0 idx_of_dist_R path (cumlen path) p = Done (last path (0, 0)).
+Proof. intros Hne Hp. exact (position_at_one_R path Hne idx_of_dist_R idx_of_dist_R_contract p Hp). Qed.
+
+Theorem std_position_at_vertex_fraction path j pj lj : path <> [] -> 0 < poly_len path ->
+  nth_error path j = Some pj -> nth_error (cumlen path) j = Some lj ->
+  position_R 0 idx_of_dist_R path (cumlen path) (lj / poly_len path) = Done pj.
+Proof. intros Hne. exact (position_at_vertex_fraction path Hne idx_of_dist_R idx_of_dist_R_contract j pj lj). Qed.
+
+Theorem std_position_at_lipschitz path a b : path <> [] ->
+  exists qa qb, position_R 0 idx_of_dist_R path (cumlen path) a = Done qa /\
+                position_R 0 idx_of_dist_R path (cumlen path) b = Done qb /\
+                edist qa qb <= Rabs (a - b) * poly_len path.
+Proof. intros Hne. exact (position_at_lipschitz path Hne idx_of_dist_R idx_of_dist_R_contract a b). Qed.
+
+Theorem std_position_at_lipschitz_guard path eps a b : path <> [] -> 0 <= eps ->
+  exists qa qb, position_R eps idx_of_dist_R path (cumlen path) a = Done qa /\
+                position_R eps idx_of_dist_R path (cumlen path) b = Done qb /\
+                edist qa qb <= Rabs (a - b) * poly_len path + 2 * eps.
+Proof. intros Hne. exact (position_at_lipschitz_guard path Hne idx_of_dist_R idx_of_dist_R_contract eps a b). Qed.
+
+(* non-vacuity: the 3-4-5 / 5-12-13 polyline; cumulative lengths 0, 5, 18 *)
+Example cumlen_example : cumlen [(0, 0); (3, 4); (8, 16)] = [0; 5; 18] /\ poly_len [(0, 0); (3, 4); (8, 16)] = 18.
+Proof.
+  assert (E1 : edist (0, 0) (3, 4) = 5) by (apply edist_eq; cbn [fst snd]; lra).
+  assert (E2 : edist (3, 4) (8, 16) = 13) by (apply edist_eq; cbn [fst snd]; lra).
+  unfold cumlen, poly_len. cbn [cum_g fst snd]. rewrite E1, E2.
+  replace (0 + 5) with 5 by ring. replace (5 + 13) with 18 by ring. split; reflexivity.
+Qed.
